@@ -4,7 +4,9 @@
   trimTrailingSpacesEdits, extractCommodityFormats, formatTransactionWithOpts,
   calculateAccountDisplayLength, CalculateAlignmentColumn,
   calculateGlobalAlignmentColumnWithIndent, CalculateAlignmentWithGlobal,
-  calculateAmountCostLen, formatPostingWithOpts, writeAmountWithSign, formatAmountQuantity),
+  calculateAmountCostLen, formatPostingWithOpts, writeAmountWithSign, commodityText,
+  formatAmountQuantity, formatIsFaithful), of server.formatText (the part of Server.Format after the
+  document, workspace formats and settings have been looked up),
   of the three shopspring/decimal methods they call (Round, StringFixed, String) and of
   lsputil.PositionMapper.LineUTF16Len as the formatter uses it.
 
@@ -76,6 +78,11 @@ def decString (d : Dec) (trim : Bool) : Bytes :=
 /-- `Decimal.StringFixed(places)`. -/
 def stringFixed (d : Dec) (places : Nat) : Bytes := decString (round d places) false
 
+/-- `Decimal.Equal` (`Cmp` after rescaling both to the smaller exponent). -/
+def decEqual (a b : Dec) : Bool :=
+  let m := min a.exp b.exp
+  (rescale a m).coef == (rescale b m).coef
+
 /-! ### number_format.go -/
 
 structure NumberFormat where
@@ -146,6 +153,19 @@ def groupInt (ip sep : Bytes) : Bytes :=
     join sep groups
   else ip
 
+/-- `formatIsFaithful`: no rounding, and not the shape "one mark, three digits after a non-zero
+    integer part" that the parser reads as a grouped integer.
+    (`rounded.Truncate(0)` of a value with exponent −3 is `coef quo 1000`.) -/
+def formatIsFaithful (q : Dec) (f : NumberFormat) : Bool :=
+  let places : Nat := if f.hasDecimal then f.places else 0
+  let rounded := round q places
+  if !decEqual rounded q then false
+  else if places == 3 then
+    let ip := (rescale rounded 0).coef
+    let grouped := (f.sep == [44] || f.sep == [46]) && ip.natAbs ≥ 1000
+    !(ip != 0 && !grouped)
+  else true
+
 def formatNumber (q : Dec) (f : NumberFormat) : Bytes :=
   let str := if f.hasDecimal then stringFixed q f.places else decString (round q 0) true
   -- strings.Split(str, "."): parts[0] and, if present, parts[1]
@@ -209,28 +229,36 @@ def extractCommodityFormats (j : Journal) : Formats :=
 
 /-- `formatAmountQuantity` (for a non-nil amount). -/
 def formatAmountQuantity (a : Amount) (formats : Option Formats) : Bytes :=
-  let viaFormat : Option Bytes := match formats with
+  let fmt : Option NumberFormat := match formats with
     | some m => match m.get a.commodity.symbol with
-      | some f => some (formatNumber a.quantity f)
-      | none => match m.get [] with
-        | some f => some (formatNumber a.quantity f)
-        | none => none
+      | some f => some f
+      | none => m.get []
+    | none => none
+  let viaFormat : Option Bytes := match fmt with
+    | some f => if a.raw.isEmpty || formatIsFaithful a.quantity f then some (formatNumber a.quantity f) else none
     | none => none
   match viaFormat with
   | some s => s
   | none => if !a.raw.isEmpty then a.raw else decString a.quantity true
 
+/-- `commodityText`: the symbol, in double quotes if it stood in double quotes in the source
+    (`content[c.Range.Start.Offset] == '"'`). -/
+def commodityText (c : Commodity) (content : Bytes) : Bytes :=
+  if !c.symbol.isEmpty && content[c.range.start.off]? == some 34 then [34] ++ c.symbol ++ [34]
+  else c.symbol
+
 /-- `writeAmountWithSign`: the bytes appended to the builder. -/
-def writeAmountWithSign (a : Amount) (formats : Option Formats) : Bytes :=
+def writeAmountWithSign (a : Amount) (formats : Option Formats) (content : Bytes) : Bytes :=
   let qty := formatAmountQuantity a formats
+  let symbol := commodityText a.commodity content
   if a.commodity.side == .left then
     match qty with
     | c :: rest =>
-      if a.signBeforeCommodity && (c == 45 || c == 43) then c :: (a.commodity.symbol ++ rest)
-      else a.commodity.symbol ++ qty
-    | [] => a.commodity.symbol ++ qty
+      if a.signBeforeCommodity && (c == 45 || c == 43) then c :: (symbol ++ rest)
+      else symbol ++ qty
+    | [] => symbol ++ qty
   else
-    qty ++ (if !a.commodity.symbol.isEmpty then 32 :: a.commodity.symbol else [])
+    qty ++ (if !symbol.isEmpty then 32 :: symbol else [])
 
 def statusMark : Status → Bytes
   | .cleared => [42, 32]
@@ -256,30 +284,39 @@ def amountGap (p : Posting) (al : AlignmentInfo) (indent : Bytes) (align : Bool)
     max (al.accountCol - runeCount (postingHead p indent)) minSpaces
   else minSpaces
 
-def costText (c : Cost) (formats : Option Formats) : Bytes :=
-  (if c.isTotal then bs " @@ " else bs " @ ") ++ writeAmountWithSign c.amount formats
+def costText (c : Cost) (formats : Option Formats) (content : Bytes) : Bytes :=
+  (if c.isTotal then bs " @@ " else bs " @ ") ++ writeAmountWithSign c.amount formats content
 
 /-- Head, gap, amount and cost: everything written before the balance assertion. -/
 def postingUpToCost (p : Posting) (al : AlignmentInfo) (formats : Option Formats) (indent : Bytes)
-    (align : Bool) : Bytes :=
+    (align : Bool) (content : Bytes) : Bytes :=
   postingHead p indent
     ++ (match p.amount with
-        | some a => spaces (amountGap p al indent align) ++ writeAmountWithSign a formats
+        | some a => spaces (amountGap p al indent align) ++ writeAmountWithSign a formats content
         | none => [])
     ++ (match p.cost with
-        | some c => costText c formats
+        | some c => costText c formats content
         | none => [])
 
-def commentText (c : Bytes) : Bytes := if !c.isEmpty then bs "  ; " ++ c else []
+def isBlankOrCR (b : UInt8) : Bool := b == 32 || b == 9 || b == 13
+
+/-- `strings.TrimRight(s, " \t\r")`. -/
+def trimRightCR : Bytes → Bytes
+  | [] => []
+  | b :: bs =>
+    let t := trimRightCR bs
+    if t.isEmpty && isBlankOrCR b then [] else b :: t
+
+def commentText (c : Bytes) : Bytes := if !c.isEmpty then bs "  ;" ++ trimRightCR c else []
 
 /-- `formatPostingWithOpts`. -/
 def formatPostingWithOpts (p : Posting) (al : AlignmentInfo) (formats : Option Formats)
-    (indent : Bytes) (align : Bool) : Bytes :=
-  let pre := postingUpToCost p al formats indent align
+    (indent : Bytes) (align : Bool) (content : Bytes) : Bytes :=
+  let pre := postingUpToCost p al formats indent align content
   let withBa := match p.assertion with
     | some ba =>
       let gap := if align && al.baCol > 0 then max (al.baCol - runeCount pre) minSpaces else minSpaces
-      pre ++ spaces gap ++ (if ba.isStrict then bs "== " else bs "= ") ++ writeAmountWithSign ba.amount formats
+      pre ++ spaces gap ++ (if ba.isStrict then bs "== " else bs "= ") ++ writeAmountWithSign ba.amount formats content
     | none => pre
   withBa ++ commentText p.comment
 
@@ -301,29 +338,33 @@ def maxAccountLenTxs (txs : List Transaction) : Nat :=
 def globalAlignmentColumn (txs : List Transaction) (indentSize : Nat) : Nat :=
   indentSize + maxAccountLenTxs txs + minSpaces
 
-def amountLen (a : Amount) (formats : Option Formats) : Nat :=
-  (if a.commodity.side == .left then runeCount a.commodity.symbol else 0)
+def amountLen (a : Amount) (formats : Option Formats) (content : Bytes) : Nat :=
+  (if a.commodity.side == .left then runeCount (commodityText a.commodity content) else 0)
     + runeCount (formatAmountQuantity a formats)
-    + (if a.commodity.side == .right then 1 + runeCount a.commodity.symbol else 0)
+    + (if a.commodity.side == .right then 1 + runeCount (commodityText a.commodity content) else 0)
 
 /-- `calculateAmountCostLen`. -/
-def amountCostLen (p : Posting) (formats : Option Formats) : Nat :=
+def amountCostLen (p : Posting) (formats : Option Formats) (content : Bytes) : Nat :=
   match p.amount with
   | none => 0
   | some a =>
-    amountLen a formats + (match p.cost with
-      | some c => (if c.isTotal then 4 else 3) + amountLen c.amount formats
+    amountLen a formats content + (match p.cost with
+      | some c => (if c.isTotal then 4 else 3) + amountLen c.amount formats content
       | none => 0)
 
 /-- `CalculateAlignmentWithGlobal`. -/
-def alignmentWithGlobal (ps : List Posting) (formats : Option Formats) (accountCol : Nat) : AlignmentInfo :=
+def alignmentWithGlobal (ps : List Posting) (formats : Option Formats) (accountCol : Nat)
+    (content : Bytes) : AlignmentInfo :=
   let hasBa := ps.any (fun p => p.assertion.isSome)
-  let maxLen := ps.foldl (fun m p => if p.amount.isSome then max m (amountCostLen p formats) else m) 0
+  let maxLen := ps.foldl (fun m p => if p.amount.isSome then max m (amountCostLen p formats content) else m) 0
   if !hasBa then ⟨accountCol, 0⟩ else ⟨accountCol, accountCol + maxLen + minSpaces⟩
 
-/-- `PositionMapper.LineUTF16Len`. -/
+/-- `strings.TrimSuffix(l, "\r")`. -/
+def trimCR (l : Bytes) : Bytes := if l.getLast? = some 13 then l.dropLast else l
+
+/-- `PositionMapper.LineUTF16Len` (the CR of a CRLF terminator is not part of the line). -/
 def lineU16 (lines : List Bytes) (line : Int) : Nat :=
-  if line < 0 || line ≥ lines.length then 0 else u16len (lines.getD line.toNat [])
+  if line < 0 || line ≥ lines.length then 0 else u16len (trimCR (lines.getD line.toNat []))
 
 /-- The 0-based line of a posting as the formatter computes it (`Range.Start.Line - 1`). -/
 def postingLine (p : Posting) : Int := (p.range.start.line : Int) - 1
@@ -333,11 +374,12 @@ def postingEdit (lines : List Bytes) (p : Posting) (text : Bytes) : Edit :=
   ⟨u32 line, 0, u32 line, UInt32.ofNat (lineU16 lines line), text⟩
 
 /-- `formatTransactionWithOpts`. -/
-def formatTransaction (tx : Transaction) (lines : List Bytes) (formats : Option Formats)
-    (globalCol : Nat) (indentSize : Nat) (align : Bool) : List Edit :=
+def formatTransaction (tx : Transaction) (content : Bytes) (lines : List Bytes) (formats : Option Formats)
+    (globalCol : Nat) (indentSize : Nat) (align : Bool) (skip : List Int) : List Edit :=
   let indent := spaces indentSize
-  let al : AlignmentInfo := if align then alignmentWithGlobal tx.postings formats globalCol else ⟨0, 0⟩
-  tx.postings.map fun p => postingEdit lines p (formatPostingWithOpts p al formats indent align)
+  let al : AlignmentInfo := if align then alignmentWithGlobal tx.postings formats globalCol content else ⟨0, 0⟩
+  (tx.postings.filter fun p => !skip.contains (postingLine p)).map fun p =>
+    postingEdit lines p (formatPostingWithOpts p al formats indent align content)
 
 /-- One round of the loop of `trimTrailingSpacesEdits`. -/
 def trimEdit (lines : List Bytes) (lineNum : Nat) (line : Bytes) : Option Edit :=
@@ -346,17 +388,18 @@ def trimEdit (lines : List Bytes) (lineNum : Nat) (line : Bytes) : Option Edit :
   else some ⟨UInt32.ofNat lineNum, UInt32.ofNat (u16len trimmed),
              UInt32.ofNat lineNum, UInt32.ofNat (lineU16 lines lineNum), []⟩
 
-def trimLoop (all : List Bytes) (postingLines : List Int) : List Bytes → Nat → List Edit
+/-- The loop of `trimTrailingSpacesEdits`; `exempt` = posting lines and skipped lines. -/
+def trimLoop (all : List Bytes) (exempt : List Int) : List Bytes → Nat → List Edit
   | [], _ => []
   | l :: ls, n =>
-    if postingLines.contains (n : Int) then trimLoop all postingLines ls (n + 1)
+    if exempt.contains (n : Int) then trimLoop all exempt ls (n + 1)
     else match trimEdit all n l with
-      | some e => e :: trimLoop all postingLines ls (n + 1)
-      | none => trimLoop all postingLines ls (n + 1)
+      | some e => e :: trimLoop all exempt ls (n + 1)
+      | none => trimLoop all exempt ls (n + 1)
 
 /-- `trimTrailingSpacesEdits`. -/
-def trimTrailingSpacesEdits (lines : List Bytes) (postingLines : List Int) : List Edit :=
-  trimLoop lines postingLines lines 0
+def trimTrailingSpacesEdits (lines : List Bytes) (postingLines skipLines : List Int) : List Edit :=
+  trimLoop lines (postingLines ++ skipLines) lines 0
 
 def effIndent (o : Options) : Nat := if o.indentSize ≤ 0 then defaultIndentSize else o.indentSize.toNat
 
@@ -369,16 +412,23 @@ def effGlobalCol (j : Journal) (o : Options) : Nat :=
 
 def allPostings (j : Journal) : List Posting := j.transactions.flatMap (·.postings)
 
-/-- `FormatDocumentWithOptions`; `formats = none` is Go's nil map. -/
-def formatDocument (j : Journal) (content : Bytes) (formats : Option Formats) (o : Options) : List Edit :=
+/-- `FormatDocumentWithOptions`; `formats = none` is Go's nil map, `skip` is
+    `Options.SkipLines` (the lines that are not rewritten). -/
+def formatDocument (j : Journal) (content : Bytes) (formats : Option Formats) (o : Options)
+    (skip : List Int) : List Edit :=
   let formats : Formats := match formats with
     | some m => m
     | none => extractCommodityFormats j
   let lines := splitLines content
   let g := effGlobalCol j o
   let txEdits := j.transactions.flatMap fun tx =>
-    formatTransaction tx lines (some formats) g (effIndent o) o.alignAmounts
+    formatTransaction tx content lines (some formats) g (effIndent o) o.alignAmounts skip
   let postingLines := (allPostings j).map postingLine
-  txEdits ++ trimTrailingSpacesEdits lines postingLines
+  txEdits ++ trimTrailingSpacesEdits lines postingLines skip
+
+/-- `server.formatText` after parsing: the lines of the parse errors are skipped. -/
+def formatText (j : Journal) (errs : List ParseError) (content : Bytes) (formats : Option Formats)
+    (o : Options) : List Edit :=
+  formatDocument j content formats o (errs.map fun e => (e.pos.line : Int) - 1)
 
 end HL.Fmt
